@@ -40,6 +40,11 @@ def main():
     if "--props" in sys.argv:
         props = sys.argv[sys.argv.index("--props") + 1].split(",")
     wt = "/tmp/seed_%s" % sid
+    dest = sid
+    if "--wt" in sys.argv:
+        wt = sys.argv[sys.argv.index("--wt") + 1]
+    if "--dest" in sys.argv:
+        dest = sys.argv[sys.argv.index("--dest") + 1]
     seed = os.path.join(wt, "seed")
     meta = json.load(open(os.path.join(seed, "meta.json")))
     res = {"verified_at": time.strftime("%Y-%m-%dT%H:%M:%SZ", time.gmtime())}
@@ -79,7 +84,7 @@ def main():
         print("check %s on the seeded tree: exit=%d violations=%d %s" % (p, rc, len(viol), detail[:2]))
         if rc not in (0, 1):
             print(out[-1500:])
-    dst = os.path.join(V, "seeded", sid)
+    dst = os.path.join(V, "seeded", dest)
     os.makedirs(dst, exist_ok=True)
     for f in ("patch.diff", "demo.c"):
         shutil.copy(os.path.join(seed, f), os.path.join(dst, f))
